@@ -494,6 +494,11 @@ func (g *c18Gen) generate(thorough bool, n int) {
 		[]byte(`{"id":"gapbq","indexSchema":{"v":{"type":"vectorFlat","vectorFlat":{"vectorSize":4,"distanceMetric":"euclidean","quantizer":{"type":"binary","binary":{"threshold":0.5,"triggerThreshold":-5,"distanceMetric":"hamming"}}}}}}`)))
 	g.add(spec("gap:bq-trigger-without-threshold", "mutated", "POST", "/v2/collections", "alice", ctJ,
 		[]byte(`{"id":"gapbq","indexSchema":{"v":{"type":"vectorFlat","vectorFlat":{"vectorSize":4,"distanceMetric":"euclidean","quantizer":{"type":"binary","binary":{"triggerThreshold":50001,"distanceMetric":"hamming"}}}}}}`)))
+	// collection ids with letters and digits that are lower case / decimal in Unicode but not in the documented alphabet
+	for _, id := range []string{"café", "straße", "αβγ", "col٣٤", "abc１２", "абв123", "ｃｏｌ"} {
+		g.add(spec("invalid:v2-create-id-unicode", "mutated", "POST", "/v2/collections", "alice", ctJ, jObj("id", jStr(id), "indexSchema", jObj()).JSON()))
+		g.add(spec("invalid:v1-create-id-unicode", "mutated", "POST", "/v1/collections", "vone", ctJ, jObj("id", jStr(id), "vectorSize", jInt(3), "distanceMetric", jStr("euclidean")).JSON()))
+	}
 	// a collection whose property "vector" is a FLAT index of dimension 3 and which also carries a vamana parameter
 	// block (dimension 5) that nothing validates: the v1 API must not take that block for the index
 	strayCreate := spec("setup", "valid", "POST", "/v2/collections", "alice", ctJ,
